@@ -1,16 +1,22 @@
-#!/usr/bin/env python3
+#!/venv/bin/python
 """Regenerates /verif/MANIFEST.json from the table below; validates with python3-vt."""
 import json, os, subprocess, sys
 V = os.path.dirname(os.path.dirname(os.path.abspath(__file__)))
 ALL = ['C%02d' % i for i in range(1, 20)]
 
-# pid -> (technique, level text, level note, design ref)
-CLAIMED = {
- 'C19': ('bounded exhaustive enumeration of (module structure x argv sequence) on the real ReferenceTestCase.main; oracle = stock unittest on the model-filtered module',
-         'Every synthetic test module (1-2 classes quick, 3 thorough; class/method tags; inheritance; a failing test) x every argv sequence up to length 2 (3 thorough) over the option alphabet x trailers is executed for real; executed tests, listing output, verbosity/failfast and regeneration table are compared with an independent reference on every execution.',
-         'Trusts python 3.12 unittest as the meaning of -v/-q/-f and class selection; bounds: <=3 classes, <=2 methods per class, argv length <=3; repeated identical tdda options and the statement\'s own unspecified cases are not judged.',
-         'DESIGN.md §4 C19'),
-}
+# properties whose check is built, reviewed and registered
+CLAIMED = ['C10', 'C19']
+sys.path.insert(0, V)
+from mc import engine
+
+def describe(pid):
+    c = engine.load_check(pid)
+    text = getattr(c, 'level_text', None) or (
+        'Bounded exhaustive exploration on the real tdda code (no sampling), every execution compared '
+        'with an independent reference model / invariant: ' + ' '.join(c.rule.split()))
+    note = getattr(c, 'level_note', None) or ('Bounds, gray zones and trusted base: ' + ' | '.join(c.assumptions))
+    return (' '.join(c.technique.split()), text, note, 'DESIGN.md §4 ' + pid)
+
 PENDING_REASON = 'check not built yet in this revision (planned, see DESIGN.md §4); nothing is claimed for it'
 
 def main():
@@ -18,7 +24,7 @@ def main():
     for pid in ALL:
         if pid not in CLAIMED or not os.path.exists(os.path.join(V, 'mc', 'checks', pid.lower() + '.py')):
             continue
-        tech, text, note, ref = CLAIMED[pid]
+        tech, text, note, ref = describe(pid)
         checks.append({
             'property_id': pid,
             'quick_cmd': 'cd /verif && /venv/bin/python -m mc.run %s --tier quick' % pid,
